@@ -256,6 +256,12 @@ def scenario_b(name):
         'warm-then-reorg': [ev_req('blockchain.transaction.get_merkle', [tx4, 4], 'merkle4'),
                             ev_req('blockchain.block.header', [3, tip], 'hdr-3-tip')],
         'burst': [],
+        # a TSC proof of a large block (cached merkle path) in flight when the fork arrives;
+        # its header read can be kept back across the whole reorganisation
+        'tsc-in-flight': [ev_req('blockchain.transaction.get_tsc_merkle',
+                                 [tx4, 4, 'txid', 'merkle_root'], 'tsc4-first'),
+                          ev_req('blockchain.transaction.get_tsc_merkle',
+                                 [tx4, 4, 'tx', 'block_header'], 'tsc4-second')],
     }[name]
     if name == 'burst':
         # a client pipelines several proof requests: they are all in flight together, their
@@ -477,7 +483,7 @@ def run_case(case, res):
 def cases_for(tier):
     q = tier == 'quick'
     cases = [dict(history=h, all_positions=not q) for h in HISTORIES]
-    for scn in ('tx-proofs', 'header-proofs', 'warm-then-reorg', 'burst'):
+    for scn in ('tx-proofs', 'header-proofs', 'warm-then-reorg', 'burst', 'tsc-in-flight'):
         n = 5 if q else 16
         for i in range(n):
             cases.append(dict(scenario=scn, bound=1 if q else 2, shard=[i, n]))
@@ -506,7 +512,7 @@ def run(tier, seed, started):
         'distinct_nontrivial': len(res.sets.get('schedules', ())) + c['histories'],
         'rule': ('A: 4 chain histories (plain, large blocks replaced at depth 3 and 5, two reorgs in a '
                  'row) x every block x positions (every 9th in quick, all in thorough, all for small '
-                 'blocks) x 6 proof request kinds, and every (h <= cp <= tip) header proof; B: 4 '
+                 'blocks) x 6 proof request kinds, and every (h <= cp <= tip) header proof; B: 5 '
                  'in-flight scenarios x every choice vector with deviation cost <= bound; C: sliced '
                  'undo jobs x 6 request sets x every slice point'),
         'tx_proofs_checked': c['tx_proofs_checked'], 'header_proofs_checked': c['header_proofs_checked'],
